@@ -1,0 +1,101 @@
+//go:build verif
+
+// Package verifhook holds the instrumentation points used by the external
+// verification harness (build tag "verif"). Callbacks are installed through
+// atomic pointers; with none installed every hook is a cheap no-op.
+package verifhook
+
+import "sync/atomic"
+
+// Enabled reports whether the hooks are compiled in.
+const Enabled = true
+
+// Point ids.
+const (
+	PtRowClaim    = 1  // a: row, b: worker-visible counter
+	PtWaitEnter   = 2  // a: row waited on, b: needed
+	PtWaitAdded   = 3  // after waiters.Add(1)
+	PtWaitLoop    = 4  // inside the wait loop, before cond.Wait
+	PtWaitExit    = 5  // a: row, b: needed
+	PtSignalStore = 6  // after done.Store; a: row, b: done
+	PtSignalBcast = 7  // before Broadcast
+	PtMBBegin     = 8  // a: x, b: y
+	PtMBEnd       = 9  // a: x, b: y
+	PtPhaseBRow   = 10 // a: y
+	PtFrameWorker = 11 // animation.DecodeFramesParallel worker picked frame a
+)
+
+type (
+	FramePassFunc func(pass, width, height int, y, u, v []byte, yStride, uvStride int)
+	PointFunc     func(id, a, b int)
+	WorkersFunc   func(site string, n int) int
+	PoolFunc      func(id string, hit bool)
+)
+
+var (
+	framePassFn atomic.Pointer[FramePassFunc]
+	pointFn     atomic.Pointer[PointFunc]
+	workersFn   atomic.Pointer[WorkersFunc]
+	poolFn      atomic.Pointer[PoolFunc]
+)
+
+func SetFramePass(f FramePassFunc) {
+	if f == nil {
+		framePassFn.Store(nil)
+	} else {
+		framePassFn.Store(&f)
+	}
+}
+
+func SetPoint(f PointFunc) {
+	if f == nil {
+		pointFn.Store(nil)
+	} else {
+		pointFn.Store(&f)
+	}
+}
+
+func SetWorkers(f WorkersFunc) {
+	if f == nil {
+		workersFn.Store(nil)
+	} else {
+		workersFn.Store(&f)
+	}
+}
+
+func SetPool(f PoolFunc) {
+	if f == nil {
+		poolFn.Store(nil)
+	} else {
+		poolFn.Store(&f)
+	}
+}
+
+// FramePass is called by the lossy encoder after each encode pass.
+func FramePass(pass, width, height int, y, u, v []byte, yStride, uvStride int) {
+	if f := framePassFn.Load(); f != nil {
+		(*f)(pass, width, height, y, u, v, yStride, uvStride)
+	}
+}
+
+// Point marks a synchronisation point.
+func Point(id, a, b int) {
+	if f := pointFn.Load(); f != nil {
+		(*f)(id, a, b)
+	}
+}
+
+// Workers lets the harness override a worker count chosen at a call site.
+func Workers(site string, n int) int {
+	if f := workersFn.Load(); f != nil {
+		return (*f)(site, n)
+	}
+	return n
+}
+
+// Pool reports a sync.Pool Get (hit = an object was reused).
+func Pool(id string, hit bool) {
+	if f := poolFn.Load(); f != nil {
+		(*f)(id, hit)
+	}
+}
